@@ -358,6 +358,40 @@ def run_prod(res, work, tier, seed):
             runs.append({"run": rid, "cfg": {"kind": "rt", "l1": L1P, "l2": L2P, "prod": True,
                                              "full": not big, "input": inp, "iid": (ii + 1) if multi else 0},
                          "ops": ops})
+    # scripted call patterns around the size thresholds of push() (64: always copied, 256: copied opportunistically):
+    # (a) a call that ends in FE (held back) followed by one large FE-free piece, which may start with FD;
+    # (b) medium anchored pieces right after a large borrowed one, from the codec's own / a foreign / a shared arena,
+    #     drained or not in between, many times (the codec's arena rolls over several chunks)
+    scripted = []
+    for start in ([FD], []):
+        for big in (257, 400, 5000):
+            inp = _filler(300, rng) + [FE] + start + _filler(big - len(start), rng) + [FE] + _filler(700, rng)
+            for m in ("borrow", "anchored", "read", "foreign", "shared", "copy"):
+                ops = [{"ev": "feed", "m": rng.choice(["borrow", "copy", m]), "n": 301},
+                       {"ev": "drain", "mode": "bytes", "n": rng.choice([0, 1, 10 ** 6])},
+                       {"ev": "feed", "m": m, "n": big}, {"ev": "feed", "m": m, "n": 1},
+                       {"ev": "drain", "mode": "read", "n": 10 ** 6}, {"ev": "feed", "m": m, "n": -1}, {"ev": "finish"}]
+                scripted.append((inp, ops))
+    for m in ("anchored", "read", "foreign", "shared"):
+        for med in (65, 200, 256):
+            for drain in (True, False):
+                reps = 12 if m in ("foreign", "shared") else 60
+                inp = _filler(reps * (1000 + med) + 10, rng)
+                ops = []
+                for _ in range(reps):
+                    ops += [{"ev": "feed", "m": "borrow", "n": 1000}, {"ev": "feed", "m": m, "n": med}]
+                    if drain:
+                        ops.append({"ev": "drain", "mode": rng.choice(["slices", "bytes", "read"]), "n": rng.choice([1, 900, 10 ** 6])})
+                        if m == "shared" and rng.random() < 0.5:
+                            ops.append({"ev": "drop_shared"})
+                ops += [{"ev": "feed", "m": "copy", "n": -1}, {"ev": "finish"}]
+                scripted.append((inp, ops))
+    for k, (inp, ops) in enumerate(scripted):
+        rid += 1
+        runs.append({"run": rid, "cfg": {"kind": "rt", "l1": L1P, "l2": L2P, "prod": True, "full": len(inp) <= 8000, "input": inp,
+                                         "iid": 0, "noremix": True},
+                     "ops": ops + [{"ev": "feed", "m": rng.choice(METHODS + ["shared"]), "n": -1},
+                                   {"ev": "feed", "m": "copy", "n": -1}, {"ev": "finish"}]})
     n_rt = rid
     # decoder negative space: truncations and header corruptions of a valid encoding, garbage
     base = [3, 1, 2, 3, 2, 0, 9, 9]           # "1 2 3" FE FD "9 9": short first chunk, short second chunk
@@ -406,7 +440,8 @@ def run_prod(res, work, tier, seed):
                      "ops": fo + [{"ev": "finish"}]})
     # validate in batches (bounded TLC memory)
     for r in runs:
-        r["ops"] = _remix(rng, r["ops"])
+        if not r["cfg"].pop("noremix", False):
+            r["ops"] = _remix(rng, r["ops"])
     runs.sort(key=lambda r: r["cfg"]["iid"])
     by_id = {r["run"]: r for r in runs}
     batch, size, bi = [], 0, 0
